@@ -4,7 +4,7 @@ import operator
 
 from .program import U
 
-_BIN = {ast.Add: operator.add, ast.Sub: operator.sub, ast.Mult: operator.mul, ast.LShift: operator.lshift,
+_BIN = {ast.Add: operator.add, ast.Sub: operator.sub, ast.Mult: operator.mul, ast.LShift: operator.lshift, ast.BitXor: operator.xor,
         ast.RShift: operator.rshift, ast.BitOr: operator.or_, ast.BitAnd: operator.and_,
         ast.Pow: operator.pow, ast.FloorDiv: operator.floordiv, ast.Mod: operator.mod}
 
@@ -134,7 +134,66 @@ def _fold(run, e, ctx, env, module):
         if isinstance(e, ast.List):
             return list(vs)
         return set(vs)
+    if isinstance(e, ast.IfExp):
+        t = _fold(run, e.test, ctx, env, module)
+        if t is NOCONST:
+            from .program import py_const
+            pc = py_const(e.test, module) if module is not None else None
+            if pc is None:
+                return NOCONST
+            t = pc
+        return _fold(run, e.body if t else e.orelse, ctx, env, module)
+    if isinstance(e, ast.Compare) and len(e.ops) == 1:
+        l = _fold(run, e.left, ctx, env, module)
+        r = _fold(run, e.comparators[0], ctx, env, module)
+        if l is NOCONST or r is NOCONST:
+            return NOCONST
+        try:
+            op = e.ops[0]
+            return {ast.Eq: operator.eq, ast.NotEq: operator.ne, ast.Lt: operator.lt, ast.LtE: operator.le,
+                    ast.Gt: operator.gt, ast.GtE: operator.ge, ast.In: lambda a, b: a in b,
+                    ast.NotIn: lambda a, b: a not in b, ast.Is: operator.is_, ast.IsNot: operator.is_not}[type(op)](l, r)
+        except Exception:
+            return NOCONST
+    if isinstance(e, (ast.ListComp, ast.SetComp, ast.GeneratorExp, ast.DictComp)):
+        return _fold_comp(run, e, ctx, env, module)
+    if isinstance(e, ast.Dict):
+        out = {}
+        for k, v in zip(e.keys, e.values):
+            if k is None:
+                return NOCONST
+            kk = _fold(run, k, ctx, env, module)
+            vv = _fold(run, v, ctx, env, module)
+            if kk is NOCONST or vv is NOCONST:
+                return NOCONST
+            out[kk] = vv
+        return out
+    if isinstance(e, ast.Call) and isinstance(e.func, ast.Attribute) and isinstance(e.func.value, ast.Constant) \
+            and e.func.attr == 'join' and len(e.args) == 1:
+        v = _fold(run, e.args[0], ctx, env, module)
+        if v is NOCONST:
+            return NOCONST
+        try:
+            return e.func.value.value.join(v)
+        except Exception:
+            return NOCONST
+    if isinstance(e, ast.Call) and not e.keywords:
+        r = _fold_pkg_call(run, e, ctx, env, module)
+        if r is not NOCONST:
+            return r
     if isinstance(e, ast.Call) and isinstance(e.func, ast.Name):
+        if e.func.id in ('len', 'min', 'max', 'sum', 'sorted', 'abs', 'int', 'bool', 'ord', 'chr', 'enumerate', 'zip', 'dict') \
+                and not e.keywords and e.func.id not in env:
+            vs = [_fold(run, x, ctx, env, module) for x in e.args]
+            if NOCONST in vs:
+                return NOCONST
+            try:
+                r = {'len': len, 'min': min, 'max': max, 'sum': sum, 'sorted': sorted, 'abs': abs, 'int': int, 'bool': bool,
+                     'ord': ord, 'chr': chr, 'enumerate': lambda *a: list(enumerate(*a)), 'zip': lambda *a: list(zip(*a)),
+                     'dict': dict}[e.func.id](*vs)
+                return r
+            except Exception:
+                return NOCONST
         if e.func.id == 'range':
             vs = [_fold(run, x, ctx, env, module) for x in e.args]
             if NOCONST in vs:
@@ -151,3 +210,190 @@ def _fold(run, e, ctx, env, module):
             except Exception:
                 return NOCONST
     return NOCONST
+
+
+_STEPS = [0]
+
+
+def _fold_comp(run, e, ctx, env, module):
+    """Comprehensions over constant iterables (bounded)."""
+    results = []
+
+    def rec(gi, env2):
+        if gi == len(e.generators):
+            _STEPS[0] += 1
+            if _STEPS[0] > 400000:
+                raise OverflowError
+            if isinstance(e, ast.DictComp):
+                k = _fold(run, e.key, ctx, env2, module)
+                v = _fold(run, e.value, ctx, env2, module)
+                if k is NOCONST or v is NOCONST:
+                    raise ValueError
+                results.append((k, v))
+            else:
+                v = _fold(run, e.elt, ctx, env2, module)
+                if v is NOCONST:
+                    raise ValueError
+                results.append(v)
+            return
+        gen = e.generators[gi]
+        it = _fold(run, gen.iter, ctx, env2, module)
+        if it is NOCONST:
+            raise ValueError
+        for item in it:
+            env3 = dict(env2)
+            if not _bind(gen.target, item, env3):
+                raise ValueError
+            ok = True
+            for cond in gen.ifs:
+                c = _fold(run, cond, ctx, env3, module)
+                if c is NOCONST:
+                    raise ValueError
+                if not c:
+                    ok = False
+                    break
+            if ok:
+                rec(gi + 1, env3)
+    try:
+        _STEPS[0] = 0 if len(env) == 0 else _STEPS[0]
+        rec(0, dict(env))
+    except (ValueError, OverflowError, TypeError):
+        return NOCONST
+    if isinstance(e, ast.ListComp):
+        return results
+    if isinstance(e, ast.SetComp):
+        return set(results)
+    if isinstance(e, ast.DictComp):
+        return dict(results)
+    return results        # a generator expression consumed by its caller (bytes(...), set(...), join)
+
+
+def _bind(target, value, env):
+    if isinstance(target, ast.Name):
+        env[target.id] = value
+        return True
+    if isinstance(target, (ast.Tuple, ast.List)):
+        try:
+            vals = list(value)
+        except TypeError:
+            return False
+        if len(vals) != len(target.elts):
+            return False
+        return all(_bind(t, v, env) for t, v in zip(target.elts, vals))
+    return False
+
+
+def _fold_pkg_call(run, e, ctx, env, module):
+    """Call of a small pure function of the package with constant arguments: its body is interpreted (assignments,
+    augmented assignments, set/list/dict updates on locals, for / if over constants, return)."""
+    f = e.func
+    fi = None
+    if isinstance(f, ast.Name) and module is not None and f.id not in env:
+        r = run.prog.lookup(module, f.id)
+        if r and r[0] == 'func':
+            fi = run.prog.funcs.get(r[1])
+    if fi is None or fi.is_generator:
+        return NOCONST
+    args = [_fold(run, a, ctx, env, module) for a in e.args]
+    if NOCONST in args:
+        return NOCONST
+    params = fi.params
+    if len(args) > len(params) or fi.node.args.vararg or fi.node.args.kwarg:
+        return NOCONST
+    loc = dict(zip(params, args))
+    defaults = fi.node.args.defaults
+    for p, d in zip(params[len(params) - len(defaults):], defaults):
+        if p not in loc:
+            v = _fold(run, d, None, {}, fi.module)
+            if v is NOCONST:
+                return NOCONST
+            loc[p] = v
+    if any(p not in loc for p in params):
+        return NOCONST
+    try:
+        r = _interp(run, fi.node.body, loc, fi.module, 0)
+    except (ValueError, OverflowError, TypeError):
+        return NOCONST
+    if r is _FALL:
+        return None
+    return r[1]
+
+
+_FALL = object()
+
+
+def _interp(run, stmts, loc, module, depth):
+    if depth > 6:
+        raise ValueError
+    for s in stmts:
+        _STEPS[0] += 1
+        if _STEPS[0] > 400000:
+            raise OverflowError
+        if isinstance(s, ast.Expr) and isinstance(s.value, ast.Constant):
+            continue
+        if isinstance(s, ast.Pass):
+            continue
+        if isinstance(s, ast.Return):
+            v = _fold(run, s.value, None, loc, module) if s.value is not None else None
+            if v is NOCONST:
+                raise ValueError
+            return ('ret', v)
+        if isinstance(s, ast.Assign) and len(s.targets) == 1:
+            v = _fold(run, s.value, None, loc, module)
+            if v is NOCONST:
+                raise ValueError
+            t = s.targets[0]
+            if isinstance(t, ast.Subscript) and isinstance(t.value, ast.Name) and t.value.id in loc:
+                k = _fold(run, t.slice, None, loc, module)
+                if k is NOCONST:
+                    raise ValueError
+                loc[t.value.id][k] = v
+            elif not _bind(t, v, loc):
+                raise ValueError
+            continue
+        if isinstance(s, ast.AugAssign) and isinstance(s.target, ast.Name) and s.target.id in loc and type(s.op) in _BIN:
+            v = _fold(run, s.value, None, loc, module)
+            if v is NOCONST:
+                raise ValueError
+            loc[s.target.id] = _BIN[type(s.op)](loc[s.target.id], v)
+            continue
+        if isinstance(s, ast.Expr) and isinstance(s.value, ast.Call) and isinstance(s.value.func, ast.Attribute) \
+                and isinstance(s.value.func.value, ast.Name) and s.value.func.value.id in loc \
+                and s.value.func.attr in ('add', 'update', 'append', 'extend', 'discard', 'remove', 'difference_update', 'setdefault'):
+            vs = [_fold(run, a, None, loc, module) for a in s.value.args]
+            if NOCONST in vs or s.value.keywords:
+                raise ValueError
+            getattr(loc[s.value.func.value.id], s.value.func.attr)(*vs)
+            continue
+        if isinstance(s, ast.If):
+            t = _fold(run, s.test, None, loc, module)
+            if t is NOCONST:
+                from .program import py_const
+                t = py_const(s.test, module)
+                if t is None:
+                    raise ValueError
+            r = _interp(run, s.body if t else s.orelse, loc, module, depth + 1)
+            if r is not _FALL:
+                return r
+            continue
+        if isinstance(s, ast.For) and not s.orelse:
+            it = _fold(run, s.iter, None, loc, module)
+            if it is NOCONST:
+                raise ValueError
+            for item in it:
+                if not _bind(s.target, item, loc):
+                    raise ValueError
+                r = _interp(run, s.body, loc, module, depth + 1)
+                if r is not _FALL:
+                    if r[0] == 'ret':
+                        return r
+                    if r[0] == 'break':
+                        break
+                    # continue
+            continue
+        if isinstance(s, ast.Continue):
+            return ('continue', None)
+        if isinstance(s, ast.Break):
+            return ('break', None)
+        raise ValueError
+    return _FALL
